@@ -326,7 +326,7 @@ def run_probes(art):
 
 def run(ctx):
     art = build.ensure_repo_artifacts()
-    n = 10 if ctx.quick else 200
+    n = 10 if ctx.quick else 120
     m = pbt.run_workers("checks.c09", "worker", 14, ctx.seed, {"n": n, "fast": ctx.quick})
     ncorp, cfails = corpus(art)
     known = {f["signature"]: f for f in findings.known_for("C09")}
